@@ -17,25 +17,11 @@
 (* A point is <<curve, x, par>>.  The ordinate of an uncompressed string   *)
 (* made on curve c is not an ordinate of the other curve.                  *)
 (***************************************************************************)
-EXTENDS Naturals, Sequences, FiniteSets
+EXTENDS KeyPoints
 
-CONSTANTS Xs, Curves, OnCurve, Calls
+CONSTANT Calls
 VARIABLES memo, last
 
-Pars == {"even", "odd"}
-Bads == {"prefix", "infinity", "trunc", "offcurve"}
-Strings == {<<"comp", x, p>> : x \in Xs, p \in Pars}
-           \cup UNION {{<<"unc", x, c, p>> : x \in OnCurve[c], p \in Pars} : c \in Curves}
-           \cup {<<"bad", h>> : h \in Bads}
-AllCalls == {[b |-> b, c |-> c] : b \in Strings, c \in Curves}
-
-Refused == [ok |-> FALSE, pt |-> <<>>]
-Pure(b, c) ==
-    CASE b[1] = "comp" -> IF b[2] \in OnCurve[c] THEN [ok |-> TRUE, pt |-> <<c, b[2], b[3]>>] ELSE Refused
-      [] b[1] = "unc"  -> IF b[3] = c THEN [ok |-> TRUE, pt |-> <<c, b[2], b[4]>>] ELSE Refused
-      [] OTHER         -> Refused
-
-NoCall == [b |-> <<"none">>, c |-> "none"]
 Init == memo = <<>> /\ last = [call |-> NoCall, res |-> Refused]
 Do(k) == memo' = memo /\ last' = [call |-> k, res |-> Pure(k.b, k.c)]
 Next == \E k \in Calls : Do(k)
